@@ -75,6 +75,27 @@ def shrink(exe_cmd, case, still_fails, budget=120):
     return ' '.join(toks)
 
 
+def minimise_sequence(exe_cmd, prefix, line, icanon=None, budget=60):
+    """shortest found sub-sequence of `prefix` after which `line` answers differently than in a fresh process (None if the
+    difference does not reproduce)"""
+    def out_after(seq):
+        o = core.run_lines(exe_cmd, list(seq) + [line], timeout=600)
+        r = o[len(seq)] if len(o) > len(seq) else 'err no-output'
+        return canon(icanon(r, line) if icanon else r)
+    alone = out_after([])
+    if out_after(prefix) == alone: return None
+    t0 = time.time(); seq = list(prefix); chunk = max(1, len(seq) // 2)
+    while chunk >= 1 and time.time() - t0 < budget:
+        i = 0; progressed = False
+        while i < len(seq) and time.time() - t0 < budget:
+            trial = seq[:i] + seq[i + chunk:]
+            if out_after(trial) != alone: seq = trial; progressed = True
+            else: i += chunk
+        if chunk == 1 and not progressed: break
+        chunk = chunk // 2 if chunk > 1 else (1 if progressed else 0)
+    return seq
+
+
 def check_obligations(spec, tier, broken):
     """Lean build of the property module + driver, forbidden-construct grep, #print axioms, leanchecker (thorough)"""
     pid = spec['id']
@@ -152,6 +173,7 @@ def decide(spec, group, tier, seed, replay=None):
 
     impl_out, model_out = {}, {}
     shrunk_from = {}
+    order_fails = []
     corr_breaks, orc_fails, known_hits = [], [], []
     harness_note = None
     with core.Scratch() as scr:
@@ -199,6 +221,30 @@ def decide(spec, group, tier, seed, replay=None):
                         if k: known_hits.append((k, c.line))
                         else: orc_fails.append((i, why))
 
+            # ---- 2b. order independence ------------------------------------------------------------
+            # every line is self-contained: what the process did before must not change its answer (function-local statics,
+            # memo tables, caches keyed too coarsely, state initialised by the first request).  The lines run a second time in
+            # a fresh process, in another order; a line whose answer differs is reported with the sequence that precedes it.
+            if not replay and not spec.get('no_order_check') and len(lines) > 1:
+                import random as _random
+                perm = list(range(len(lines))); _random.Random(seed * 7919 + 13).shuffle(perm)
+                heavy = spec.get('order_skip_prefix')
+                if heavy: perm = [i for i in perm if not lines[i].startswith(heavy)]
+                lines2 = [lines[i] for i in perm]
+                t0 = time.time(); iout2 = core.run_lines(hcmd, lines2); t_order = time.time() - t0
+                icanon = spec.get('impl_canon')
+                for k, i in enumerate(perm):
+                    o2 = iout2[k] if k < len(iout2) else 'err no-output'
+                    if icanon: o2 = icanon(o2, lines[i])
+                    if canon(o2) != canon(impl_out.get(i, '')) and not known_match(known, pid, lines[i]):
+                        seq = minimise_sequence(hcmd, lines2[:k], lines[i], icanon)
+                        if seq is None: continue           # not reproducible from a fresh process: not an order effect of the code
+                        order_fails.append({'line': lines[i], 'alone': impl_out.get(i, ''), 'after_sequence': o2, 'sequence': seq})
+                        orc_fails.append((i, 'the answer depends on what the process did before: alone %s, after %d other line(s) %s'
+                                          % (impl_out.get(i, '')[:120], len(seq), o2[:120])))
+                        if len(order_fails) >= 3: break
+                notes.append('order pass: %d lines re-run in another order in %.1fs, %d order-dependent' % (len(lines2), t_order, len(order_fails)))
+
             # ---- 3. search when something no longer checks -------------------------------------
             if (broken or corr_breaks) and not orc_fails and not replay:
                 log('%s: obligation/correspondence broken; searching for a failing input' % pid)
@@ -237,6 +283,22 @@ def decide(spec, group, tier, seed, replay=None):
                         orc_fails.insert(0, (len(cases) - 1, chk(core.parse_vals(o), o)))
                 except Exception as e:  # shrinking is best effort
                     notes.append('shrink failed: %r' % e)
+
+    # ---- replay of recorded order dependences ---------------------------------------------------
+    if replay and rj.get('order_dependence'):
+        with core.Scratch() as scr:
+            exe, err, t_h = core.build_harness(scr, group['name'], group['sources'], group.get('repo_sources', ()),
+                                               group.get('flags', ()), group.get('libs', ('-lgmpxx', '-lgmp')))
+            if exe is not None:
+                icanon = spec.get('impl_canon')
+                for od in rj['order_dependence']:
+                    def out_after(seq, line=od['line']):
+                        o = core.run_lines([exe], list(seq) + [line]); r = o[len(seq)] if len(o) > len(seq) else 'err no-output'
+                        return canon(icanon(r, line) if icanon else r)
+                    a, b = out_after([]), out_after(od['sequence'])
+                    if a != b:
+                        cases.append(Case(od['line'], 'orc', 'order')); impl_out[len(cases) - 1] = b
+                        orc_fails.append((len(cases) - 1, 'the answer depends on what the process did before: alone %s, after the recorded sequence %s' % (a[:120], b[:120])))
 
     # ---- 3b. implementation-only oracles that live in another harness group ---------------------
     for xgroup, xgen in spec.get('extra', []):
@@ -279,6 +341,7 @@ def decide(spec, group, tier, seed, replay=None):
             'no_longer_checks': broken + (['correspondence model=%s vs harness group %s (%d of %d compared lines differ)' %
                                             (module, group['name'], len(corr_breaks), len([c for c in cases if c.kind == 'cmp']))] if corr_breaks else []),
             'shrunk_from': shrunk_from,
+            'order_dependence': order_fails,
             'replay_cmd': './check %s --replay %s' % (pid, replay_path),
         }
         json.dump(rj, open(replay_path, 'w'), indent=1)
